@@ -303,6 +303,10 @@ func verifyMycatPatitionLongShard(shardNum int, partitionCount, partitionLength 
 
 	segmentLength := 0
 	for i := 0; i < countSize; i++ {
+		// entries outside these bounds would index outside ai below (and outside segment in the router)
+		if countList[i] < 0 || countList[i] > shardNum || lengthList[i] < 0 || lengthList[i] > PartitionLength {
+			return fmt.Errorf("error, partition count must be in [0, shardNum] and partition length in [0, %d]", PartitionLength)
+		}
 		segmentLength += countList[i]
 	}
 	if segmentLength != shardNum {
